@@ -612,16 +612,32 @@ impl FatVolume {
                             next: sequence - 1,
                         }
                     }
-                    (false, 0x01, SeqState::Remaining { csum, next }) if next == sequence => {
+                    (
+                        false,
+                        0x01,
+                        SeqState::Remaining {
+                            csum: run_csum,
+                            next,
+                        },
+                    ) if next == sequence && run_csum == csum => {
                         lfn_buffer.push(&buffer);
-                        SeqState::Complete { csum }
+                        SeqState::Complete { csum: run_csum }
                     }
-                    (false, sequence, SeqState::Remaining { csum, next })
-                        if sequence >= 0x01 && sequence < 0x13 && next == sequence =>
+                    (
+                        false,
+                        sequence,
+                        SeqState::Remaining {
+                            csum: run_csum,
+                            next,
+                        },
+                    ) if sequence >= 0x01
+                        && sequence < 0x13
+                        && next == sequence
+                        && run_csum == csum =>
                     {
                         lfn_buffer.push(&buffer);
                         SeqState::Remaining {
-                            csum,
+                            csum: run_csum,
                             next: sequence - 1,
                         }
                     }
